@@ -70,6 +70,9 @@ type Conn struct {
 	// OutOverflow is set when more than MaxOut bytes were written (the rest is dropped).
 	OutOverflow bool
 
+	// EverWedged is set once an Await gave up waiting for this connection.
+	EverWedged bool
+
 	// OnRead, when set, is called (without the lock) at the start of every Read.
 	OnRead func()
 	// MaxSeg limits how many bytes a single Read returns (0 = whole segment).
@@ -304,6 +307,7 @@ func (c *Conn) await(wantClose bool) Status {
 		case !wantClose && c.parked && len(c.segs) == 0:
 			return Parked
 		case expired:
+			c.EverWedged = true
 			return Wedged
 		}
 		c.cond.Wait()
@@ -484,3 +488,10 @@ func (e *ClientEnd) RemoteAddr() net.Addr               { return Addr("mem:serve
 func (e *ClientEnd) SetDeadline(t time.Time) error      { return nil }
 func (e *ClientEnd) SetReadDeadline(t time.Time) error  { return nil }
 func (e *ClientEnd) SetWriteDeadline(t time.Time) error { return nil }
+
+// SetFaults replaces the fault plan of a live connection (counts are absolute, see Snapshot).
+func (c *Conn) SetFaults(f Faults) {
+	c.mu.Lock()
+	c.F = f
+	c.mu.Unlock()
+}
